@@ -250,6 +250,11 @@ pub fn float_literals() -> Vec<(&'static str, &'static str)> {
         ("leading-dot", ".5"),
         ("trailing-dot", "5."),
         ("hex-as-float", "0x10"),
+        ("hex-32-bit-ones", "0xFFFFFFFF"),
+        ("hex-2^32", "0x100000000"),
+        ("hex-i64-max", "0x7FFFFFFFFFFFFFFF"),
+        ("hex-2^63", "0x8000000000000000"),
+        ("hex-64-bit-ones", "0xFFFFFFFFFFFFFFFF"),
         ("overflow-to-inf", "1e999"),
         ("neg-overflow", "-1e999"),
         ("underflow-to-zero", "1e-999"),
